@@ -39,14 +39,15 @@ typedef struct Worker {
 static Worker g_w[MAX_WT];
 static const Plan *g_tp;
 
-static SM9_SIGN_MASTER_KEY g_t_sm9m; static SM9_SIGN_KEY g_t_sm9k;
+static SM9_SIGN_MASTER_KEY g_t_sm9m[3]; static SM9_SIGN_KEY g_t_sm9k[3];   /* several master keys: tasks must not share key-dependent state */
 static int g_t_ready;
 
 static void threads_setup(void)
 {
 	if (g_t_ready) return;
 	sim_ambient_entropy_seed(0x7123ad5);
-	if (sm9_sign_master_key_generate(&g_t_sm9m) != 1 || sm9_sign_master_key_extract_key(&g_t_sm9m, "carol", 5, &g_t_sm9k) != 1) die("threads setup");
+	for (int i = 0; i < 3; i++)
+		if (sm9_sign_master_key_generate(&g_t_sm9m[i]) != 1 || sm9_sign_master_key_extract_key(&g_t_sm9m[i], "carol", 5, &g_t_sm9k[i]) != 1) die("threads setup");
 	(void)creds_get(1, 0); (void)creds_get(2, 0); (void)creds_get(1, 1);
 	g_t_ready = 1;
 }
@@ -100,8 +101,10 @@ static void script_task(void *arg)
 		case 10: { /* X.509: issue, parse, verify */
 			SM2_KEY ck, lk; Ident ca, leaf; int vr;
 			DI(w, sm2_key_generate(&ck)); DI(w, sm2_key_generate(&lk));
-			CertSpec cs = { "T CA", 1, -1, X509_KU_KEY_CERT_SIGN, SIM_T0 - 10, SIM_T0 + 86400 };
-			CertSpec ls = { "t.leaf", 0, -1, X509_KU_DIGITAL_SIGNATURE, SIM_T0 - 10, SIM_T0 + 86400 };
+			/* validity periods that start and end in different (leap and non-leap) years per task */
+			int64_t nb = SIM_T0 - 10 - (int64_t)(w->id % 4) * 400 * 86400LL, na = SIM_T0 + 86400 + (int64_t)(w->id % 3) * 500 * 86400LL;
+			CertSpec cs = { "T CA", 1, -1, X509_KU_KEY_CERT_SIGN, nb, na };
+			CertSpec ls = { "t.leaf", 0, -1, X509_KU_DIGITAL_SIGNATURE, nb, na };
 			DI(w, creds_issue(&cs, &ck, NULL, &ca)); DI(w, creds_issue(&ls, &lk, &ca, &leaf)); D(w, leaf.cert, leaf.certlen);
 			DI(w, x509_certs_verify(leaf.cert, leaf.certlen, X509_cert_chain_server, ca.cert, ca.certlen, 4, &vr)); break; }
 		case 11: { /* CMS sign / verify */
@@ -123,8 +126,8 @@ static void script_task(void *arg)
 			DI(w, tls13_gcm_decrypt(&bk, iv, seq, out, ol, &rt, dec, &dl)); if (dl != n || memcmp(dec, buf, n)) wfail(w, "gcm record round trip"); break; }
 		case 13: if (rng_chance(&r, 1, 3)) { /* SM9 (slow): sign / verify */
 			SM9_SIGN_CTX sc; uint8_t sig[SM9_SIGNATURE_SIZE]; size_t sl = 0;
-			DI(w, sm9_sign_init(&sc)); DI(w, sm9_sign_update(&sc, buf, n)); DI(w, sm9_sign_finish(&sc, &g_t_sm9k, sig, &sl)); D(w, sig, sl);
-			SM9_SIGN_CTX vc; DI(w, sm9_verify_init(&vc)); DI(w, sm9_verify_update(&vc, buf, n)); DI(w, sm9_verify_finish(&vc, sig, sl, &g_t_sm9m, "carol", 5)); }
+			DI(w, sm9_sign_init(&sc)); DI(w, sm9_sign_update(&sc, buf, n)); DI(w, sm9_sign_finish(&sc, &g_t_sm9k[w->id % 3], sig, &sl)); D(w, sig, sl);
+			SM9_SIGN_CTX vc; DI(w, sm9_verify_init(&vc)); DI(w, sm9_verify_update(&vc, buf, n)); DI(w, sm9_verify_finish(&vc, sig, sl, &g_t_sm9m[w->id % 3], "carol", 5)); }
 			break;
 		case 14: { uint8_t okm[64]; DI(w, sm3_pbkdf2((char *)buf, 8, key, 16, 64 + (int)(n % 64), 40, okm)); D(w, okm, 40); break; }
 		default: { /* ECDH between two fresh keys: both sides must agree */
